@@ -130,3 +130,4 @@ def run(ses):
 
 confirm = c01.confirm
 replay = c01.replay
+BASELINE = ['c15', 'c15_history']
